@@ -579,6 +579,9 @@ func (w *World) readPosLocked(r *Server) int64 {
 	return pos
 }
 
+// ReadPosLocked is the exported form of readPosLocked.
+func (w *World) ReadPosLocked(r *Server) int64 { return w.readPosLocked(r) }
+
 // --- operator SQL ---
 
 // Manual applies a change to a server as an operator would through a SQL console.
